@@ -260,6 +260,39 @@ def run(ctx):
                                        "input": {"store": "local", "ops": [["store", "k0", 1], ["sync", [[p, "k0"]]]]}, "kf": None})
         finally:
             shutil.rmtree(tmp, ignore_errors=True)
+    # a path and an extension of it committed one after the other (separate commits, either order): the local store cannot hold
+    # both (a name is a link or a directory). Whatever it answers, it must not lose what it holds: a commit either succeeds - then
+    # both paths resolve - or is refused - then every path committed before still resolves to its key
+    from dds._lru_store import LRUCacheStore as _LRU
+    for (first, second) in ((["a", "b"], ["a"]), (["a"], ["a", "b"]), (["a"], ["a", "b", "ab", "a"]), (["d", "e", "f"], ["d", "e"]), (["a b"], ["a b", "c"])):
+        for wrap in (False, True):
+            tmp = tempfile.mkdtemp(prefix="ddsverif_c08_")
+            try:
+                st = LocalFileStore(tmp + "/i", tmp + "/d")
+                if wrap:
+                    st = _LRU(st, num_elem=2)
+                p1, p2 = "/" + "/".join(first), "/" + "/".join(second)
+                for k in ("k1", "k2", "k3"):
+                    st.store_blob(k, "v" + k, None)
+                o0 = apply_op(st, ["sync", [["/other/x", "k3"]]], DDSException)
+                o1 = apply_op(st, ["sync", [[p1, "k1"]]], DDSException)
+                o2 = apply_op(st, ["sync", [[p2, "k2"]]], DDSException)
+                want = OrderedDict([("/other/x", "k3"), (p1, "k1")])
+                if o2 == "unit":
+                    want[p2] = "k2"
+                got = {}
+                for pth in want:
+                    r = apply_op(st, ["fetch_paths", [pth]], DDSException)
+                    got[pth] = dict(r["paths"]).get(pth) if isinstance(r, dict) else r
+                res.evaluations += 1
+                res.count("prefix_related_commits")
+                res.nontrivial("prefix commits %s %s %s" % (p1, p2, wrap))
+                if o0 != "unit" or o1 != "unit" or got != dict(want):
+                    res.violations.append({"what": "after committing %s and then %s (answer to the second commit: %s) the paths resolve to %s, expected %s" % (
+                        p1, p2, o2, got, dict(want)), "input": {"store": "local+cache" if wrap else "local",
+                        "ops": [["sync", [["/other/x", "k3"]]], ["sync", [[p1, "k1"]]], ["sync", [[p2, "k2"]]]]}, "kf": None})
+            finally:
+                shutil.rmtree(tmp, ignore_errors=True)
     if ctx["driver_ok"]:
         ans = common.drv_batch(reqs)
         for rq, m, a in zip(reqs, meta, ans):
